@@ -59,8 +59,10 @@ def r8_3(ctx):
         ctx.check(lin_eq(want, ref), f.fq, f"child width {show(ow[0])} + left + right", f"{f.module.relpath}:{co.lineno}", "frame adds exactly left + right cells to the child's width",
                   f"Padding hands the child `{show(ow[0])}` cells but its lines are `{show(ref)}` wide: the frame does not add exactly left + right cells")
         # vertical: top/bottom counts
-        src = norm(f.node)
-        ctx.check("top = [blank_line] * self.top" in src and "bottom = [blank_line] * self.bottom" in src, f.fq, "top/bottom blank lines", f.where, "exactly `top` blank lines above and `bottom` below", "Padding does not emit exactly self.top / self.bottom blank lines")
+        from ..astutil import inline as _inl, single_defs as _sdf
+        _psd = _sdf(f.node)
+        yfs = [norm(_inl(b.value.value, _psd, keep=("blank_line",))) for b in f.node.body if isinstance(b, ast.Expr) and isinstance(b.value, ast.YieldFrom)]
+        ctx.check(yfs == ["[blank_line] * self.top", "[blank_line] * self.bottom"], f.fq, "top/bottom blank lines", f.where, "exactly `top` blank lines above and `bottom` below", "Padding does not emit exactly self.top / self.bottom blank lines")
     # Panel
     f, env, em = _frame_rule(ctx, "panel:Panel.__rich_console__", "panel")
     if em is not None:
